@@ -14,10 +14,15 @@ resulting index holds the (mapped) input value.  The statement is about the dens
 fancy-index assignment per entry; any dtype the call accepts, including the default chosen by the regenerated
 `fit_dtype`) equals the (mapped) input element for element and in shape.
 
-What stays outside the theorems: that `to_array` *succeeds* (no `OverflowError` for the default dtype; negative
-values) and the `mapping=` argument on the way back — both are decided on the real code by the oracle and tied to
-the model by the correspondence on every generated case; `Arr` is a shape plus flat row-major data, NumPy's
-memory layout and dtype casting are modelled, not verified.
+`roundtrip_mapped` is the same with a value mapping on the way back (`to_array(mapping=m2)`: every cell holds
+`m2[mapped input]`).  `to_array_default_succeeds`: with the default dtype the call never fails on a well-formed
+index whose extreme values some NumPy integer type can represent — the dtype comes from the regenerated
+`fit_dtype` (C19's `fit_contains`), so the negative-value and boundary cases that raised `OverflowError` on the
+pinned tree are covered by a theorem about today's source.
+
+What stays outside the theorems: the refusals of `from_array` (an empty array without a common value; a mapping
+that lacks a key) are modelled as errors and compared with the real code by the correspondence; `Arr` is a shape
+plus flat row-major data — NumPy's memory layout and dtype casting are modelled, not verified.
 -/
 namespace Catii.C01
 open Catii.IIdx
@@ -66,6 +71,20 @@ theorem roundtrip (a : Arr) (o : FromOpts) (idx : IIndex) (w : Bool) (harr : Arr
     arr.shape = a.shape ∧ ∀ r < a.nrows, ∀ col ∈ a.cols, ∀ mv,
       mapVal o.mapping (a.at r col) = .ok mv → arr.at r col = mv :=
   IIdx.roundtrip a o idx w harr h hcounts dt arr ht
+
+/-- the same with a value mapping on the way back -/
+theorem roundtrip_mapped (a : Arr) (o : FromOpts) (idx : IIndex) (w : Bool) (harr : ArrOK a)
+    (h : fromArray a o = .ok (idx, w))
+    (hcounts : ∀ c, o.counts = some c → (c.map (·.1)).Nodup ∧ ∀ v ∈ a.data, v ∈ c.map (·.1))
+    (m2 : List (Int × Int)) (hm2 : m2 ≠ []) (dt : Option DT) (arr : Arr) (ht : toArray idx (some m2) dt = .ok arr) :
+    arr.shape = a.shape ∧ ∀ r < a.nrows, ∀ col ∈ a.cols, ∀ mv,
+      mapVal o.mapping (a.at r col) = .ok mv → arr.at r col = (lookup m2 mv).getD 0 :=
+  IIdx.roundtrip_mapped a o idx w harr h hcounts m2 hm2 dt arr ht
+
+/-- with the default dtype `to_array()` cannot fail on representable values (no `OverflowError`) -/
+theorem to_array_default_succeeds (i : IIndex) (h : WF i) (hnd : i.ndim ≤ 2)
+    (hdom : C19.Dom (dtypeExtremes i).1 (dtypeExtremes i).2) : ∃ arr, toArray i none none = .ok arr :=
+  toArray_default_succeeds i h hnd hdom
 
 /-- the two strategies cannot be told apart through the dense content (corollary) -/
 theorem strategy_invisible (a : Arr) (o : FromOpts) (i1 i2 : IIndex) (harr : ArrOK a)
